@@ -40,7 +40,7 @@ Fixpoint embed_expr (e : expr) : option NV.NanoCore.Syntax.expr :=
       match embed_expr c, embed_expr a, embed_expr b with
       | Some c', Some a', Some b' => Some (NV.NanoCore.Syntax.EIf c' a' b')
       | _, _, _ => None end
-  | EStr _ | ECall _ _ | EArr _ | EAt _ _ | ELen _ => None
+  | EStr _ | ECall _ _ | EArr _ | EAt _ _ | ELen _ | EStr1 _ _ | EStr2 _ _ _ | ESubstr _ _ _ => None
   end.
 
 Definition embed_val (v : value) : option NV.NanoCore.Syntax.val :=
@@ -87,7 +87,7 @@ Fixpoint exact_eval (en : env) (e : expr) : option value :=
       | Some (VBool true) => exact_eval en a
       | Some (VBool false) => exact_eval en b
       | _ => None end
-  | EStr _ | ECall _ _ | EArr _ | EAt _ _ | ELen _ => None
+  | EStr _ | ECall _ _ | EArr _ | EAt _ _ | ELen _ | EStr1 _ _ | EStr2 _ _ _ | ESubstr _ _ _ => None
   end.
 
 Fixpoint esize (e : expr) : nat :=
